@@ -8,7 +8,7 @@
     control points [pts]; every theorem is about the last case ("whenever a result is returned").
     [pt_distance] is the Euclidean distance.  Over the reals [powf] is the exact power, [ceil] the
     integer ceiling and [hypot] the exact length: rounding is outside these theorems. *)
-From Coq Require Import ZArith Reals List Bool Floats.
+From Coq Require Import ZArith Reals List Bool Floats Lia.
 From KV Require Import Scalar RInst F64 Geom Curves ToQuads C17_proofs C17_spline_proofs.
 Import ListNotations.
 Local Open Scope R_scope.
@@ -127,6 +127,18 @@ Proof.
   exact (spline_ok_lies_within _ _ _ _ Hok).
 Qed.
 
+(** ... and conversely every point of the cubic has a point of the spline within [acc]
+    (so the two curves are within [acc] of each other in the Hausdorff sense). *)
+Theorem C17_approx_spline_covers_cubic : forall fuel (c : CubicBez R) acc pts,
+  approx_spline fuel c acc = Some (Some pts) ->
+  forall s, 0 <= s <= 1 ->
+  exists i Q t, nth_error (quadspline_to_quads pts) i = Some Q /\ 0 <= t <= 1 /\
+                pt_distance (quad_eval Q t) (cubic_eval c s) <= acc.
+Proof.
+  intros fuel c acc pts Hs. destruct (approx_spline_sound _ _ _ _ Hs) as (n & Hn & Hok).
+  apply (spline_ok_covers _ _ _ _ Hok). lia.
+Qed.
+
 (** All splines of one call: one per cubic, all with the same number [n + 2] of control points,
     each starting and ending at its cubic's end points and within the accuracy of it. *)
 Theorem C17_cubics_to_quadratic_splines_sound : forall fuel (cs : list (CubicBez R)) acc ss,
@@ -144,6 +156,13 @@ Theorem C17_splines_same_length : forall fuel (cs : list (CubicBez R)) acc ss,
   length ss = length cs /\
   exists n, (1 <= n <= 101)%nat /\ forall pts, In pts ss -> length pts = (n + 2)%nat.
 Proof. exact splines_same_length. Qed.
+
+(** The fuel only bounds the recursion depth: once [fit_inside] answers, more fuel gives the same
+    answer (any scalar, so also binary64) — the theorems above hold for whatever depth the
+    unbounded Rust recursion reaches. *)
+Theorem C17_fit_inside_fuel_irrelevant : forall (T : Type) (S : Scalar T) k j (c : CubicBez T) d b,
+  fit_inside k c d = Some b -> fit_inside (k + j) c d = Some b.
+Proof. intros T S. exact (@fit_inside_fuel_mono T S). Qed.
 
 (** Every branch of [split_into_n] (the pre-computed n = 1, 2, 3, 4, 6 and the general one)
     yields the sub-segments over [i/n, (i+1)/n]. *)
